@@ -169,6 +169,46 @@ theorem completion_once (cfg : Cfg) (s : State) (hr : Reachable cfg s) (b : Nat)
     · have : B.ncompl = 0 := hC.complZero b B hB hd (fun P hP code hs => hex ⟨P, code, hP, hs⟩)
       rw [this]; exact Nat.zero_le 1
 
+/-- **batch_outcome_exact** — for every completed batch (sync, Async, with or without callback): its final error —
+the value WriteErrors and the Completion callback report for each of its messages — is nil exactly when the broker
+applied and acknowledged an attempt of the batch; then all its messages are in the log of the batch's partition. -/
+theorem batch_outcome_exact (cfg : Cfg) (s : State) (hr : Reachable cfg s) (b : Nat) (B : Batch) (code : Code)
+    (hB : s.batches b = some B) (hd : B.done = some code) :
+    (code = 0 ↔ B.acked = true) ∧
+    (code = 0 → ∀ m ∈ B.msgs, ∃ e ∈ s.log B.tp, e.msg = m.msg ∧ e.batch = b) := by
+  have hA := invAck cfg s hr
+  refine ⟨⟨?_, ?_⟩, ?_⟩
+  · intro h0; subst h0; exact hA.doneAcked b B hB hd
+  · intro hack
+    rcases hA.ackedWhere b B hB hack with h0 | ⟨P, hPq, hst⟩
+    · rw [hd] at h0; cases h0; rfl
+    · have := hA.pipeLive B.pw P hPq b (sender_mem_pipe (ackState_batch hst)) B hB
+      rw [hd] at this; cases this
+  · intro h0; subst h0
+    exact hA.ackedInLog b B hB (hA.doneAcked b B hB hd)
+
+/-- **attempts_bounded** — a batch is attempted at most MaxAttempts times, a retry follows only an error the
+configuration classifies as temporary / transient, and after an error-free attempt no further attempt is made. -/
+theorem attempts_bounded (cfg : Cfg) (s s' : State) (pw b k : Nat) (hs : step cfg s (.attempt pw b k) = some s') :
+    k < cfg.maxAttempts := by
+  simp only [step] at hs
+  repeat' split at hs
+  all_goals (first | (cases hs; done) | skip)
+  rename_i _ P hP hg
+  exact hg.2
+
+theorem retry_only_after_retriable (cfg : Cfg) (b k : Nat) (code : Code) (k' : Nat)
+    (h : afterAttempt cfg b k code = .ready b k') : code ≠ 0 ∧ cfg.retriable code = true ∧ k' = k + 1 ∧ k' < cfg.maxAttempts := by
+  unfold afterAttempt at h
+  split at h
+  · cases h
+  · rename_i hc
+    split at h
+    · rename_i hr
+      cases h
+      exact ⟨hc, hr.1, rfl, hr.2⟩
+    · cases h
+
 /-- **completion_before_done** — `complete` (closing batch.done, which lets WriteMessages return) is enabled only
 after the Completion callback ran when one is configured, and with the same error. -/
 theorem completion_before_done (cfg : Cfg) (s s' : State) (pw b : Nat) (code : Code)
